@@ -509,6 +509,13 @@ def _execute(case, rng, l, r, hook):
                 outstanding.append(p)
 
             ok = emit(f"lnd tell_pending {r.pid(p)}", do, "tell_pending")
+        elif x < 0.895 and l.data:
+            p = rng.choice(list(l.data))  # a retry: an evaluated point is marked pending again - ignored by the learner (f204e85)
+
+            def do(p=p):
+                l.tell_pending(p)
+
+            ok = emit(f"lnd tell_pending {r.pid(p)}", do, "tell_pending_known")
         elif x < 0.91 and l.data:
             p = rng.choice(list(l.data))  # re-tell of a known point with another value: ignored by the learner
             ok = tell_one(case, l, r, emit, p, "retell", value=12345.0 if case["vdim"] == 1 else [12345.0] * case["vdim"])
